@@ -49,6 +49,7 @@ def run(ctx):
   sharded_init_pads(ctx)
   axis_names(ctx)
   vmapped_roots(ctx)
+  pad_dtypes(ctx)
   from . import C07
   C07.squeeze_lint(ctx)
 
@@ -383,7 +384,8 @@ def parallel_lists(ctx):
   st = next((v_ for v_ in vals_ if holds(v_, lambda x: fn_name(x) == 'pad_square_matrix') and holds(v_, lambda x: is_ext_call(x, 'jax.numpy.eye'))), None)
   ps_ = next((v_ for v_ in vals_ if v_ is not st and not holds(v_, lambda x: fn_name(x) == 'pad_square_matrix') and
               any(e_.op == 'star' and is_const(e_.args[0], 0) for e_ in v_.args) and
-              holds(v_, lambda x: x.op == 'call' and x.args[0].op == 'builtin' and x.args[0].args[0] == 'len')), None)
+              holds(v_, lambda x: (x.op == 'call' and x.args[0].op == 'builtin' and x.args[0].args[0] == 'len') or
+                    (x.op == 'sub' and is_const(x.args[1], 0) and x.args[0].op == 'attr' and x.args[0].args[1] == 'shape'))), None)
   ok = st is not None and ps_ is not None
   if ok:
     try:
@@ -391,6 +393,10 @@ def parallel_lists(ctx):
       ok = _same_shape_lists(st, ps_)
     except LenError:
       ok = False
+  if ok:
+    # ... and the real entries of both lists run over the same statistics, in the same nesting order
+    real = lambda v_: [e_ for e_ in v_.args if e_.op == 'star' and not _is_pad(e_)]
+    ok = len(real(st)) == len(real(ps_)) and all(_nest(x_)[1] == _nest(y_)[1] and _nest(x_)[0] is not None for x_, y_ in zip(real(st), real(ps_)))
   ctx.ob('C13.P2', fi.short, 'sharded: statistics and padding starts extended in lock-step', ok,
          'new_padded_statistics and padding_starts must receive one entry per statistic and the same number of pads', ctx.loc(fi),
          sample='extend per statistic; += [0] * to_pad / eye pads')
@@ -636,39 +642,118 @@ def batch_unbatch(ctx):
   ctx.ob('C13.P3', fb.short, 'chunks x[idx:idx+b] for idx in range(0, n, b), b = n / D', ok,
          f'batch must stack consecutive chunks of width b = int(len(x) / num_devices) with stride b (width != stride duplicates or drops statistics); got `{show(r, maxdepth=6)[:240]}`',
          ctx.loc(fb), sample='stack([stack(x[idx:idx+b]) for idx in range(0, n, b)])')
-  # unbatch: structure via AST + value graph
-  ev = evaluator(m, decide=Decider(extra=lambda c: True if (c.op == 'cmp' and c.args[0] == '>' and is_const(c.args[2], 1)) else None))
-  r = ev.run(fu)
+  # unbatch: the returned list, whatever loops / comprehensions build it, enumerates
+  #   squeeze(split(squeeze(split(bv, shape[0], 0)[i], 0), shape[1], 0)[j], 0)   for i (outer), j (inner)
+  # and, with one statistic per device, squeeze(squeeze(split(bv, shape[0], 0)[i], 0), 0) for i
   BV = sym('param', fu.short, 'batched_values')
-  ok = r.op == 'list' and len(r.args) == 1 and r.args[0].op == 'star'
-  if ok:
-    inner = r.args[0]
-    e = inner.args[0]
-    splits = [y for y in walk(r) if is_ext_call(y, 'jax.numpy.split')]
-    ok = len(set(splits)) == 2
+
+  def is_one_cmp(c):
+    return c.op == 'cmp' and c.args[0] in ('>', '<', '>=', '<=', '==', '!=') and (is_const(c.args[2], 1) or is_const(c.args[1], 1))
+
+  def many(c):      # truth of the code's own test when shape[1] > 1
+    if not is_one_cmp(c):
+      return None
+    o = c.args[0]
+    if is_const(c.args[1], 1):
+      o = {'>': '<', '<': '>', '>=': '<=', '<=': '>='}.get(o, o)
+    return {'>': True, '>=': True, '!=': True, '<': False, '<=': False, '==': False}[o]
+
+  def split_of(t, src_ok, count):
+    kw = dict(t.args[2]) if is_ext_call(t, 'jax.numpy.split') else None
+    return kw is not None and len(t.args[1]) == 1 and src_ok(t.args[1][0]) and is_const(kw.get('axis', const(0)), 0) and \
+        cmpr.same(kw.get('indices_or_sections', NONE), spec_term(ev, count, {'bv': BV}))
+
+  def squeezed(t):
+    return t.args[1][0] if is_ext_call(t, 'jax.numpy.squeeze') and len(t.args[1]) == 1 and is_const(dict(t.args[2]).get('axis', NONE), 0) else None
+
+  for b2_many in (True, False):
+    ev = evaluator(m, decide=Decider(extra=lambda c: (many(c) if b2_many else (None if many(c) is None else not many(c)))))
+    r = ev.run(fu)
+    ctx.evaluations += 1
+    e, doms = _nest(r)
+    ok = e is not None
     if ok:
-      outer = [y for y in splits if y.args[1][0] is BV]
-      inn = [y for y in splits if y.args[1][0] is not BV]
-      ok = len(outer) == 1 and len(inn) == 1
-      if ok:
-        ko, ki = dict(outer[0].args[2]), dict(inn[0].args[2])
-        ok = is_const(ko.get('axis', NONE), 0) and is_const(ki.get('axis', NONE), 0) and \
-            cmpr.same(ko.get('indices_or_sections', NONE), spec_term(ev, 'bv.shape[0]', {'bv': BV})) and \
-            cmpr.same(ki.get('indices_or_sections', NONE), spec_term(ev, 'bv.shape[1]', {'bv': BV}))
-        # inner split operates on the squeezed piece of the outer split, results appended inner-most
-        sq = inn[0].args[1][0]
-        ok = ok and is_ext_call(sq, 'jax.numpy.squeeze') and any(y is outer[0] for y in walk(sq))
-        dom = inner.args[1]
-        ok = ok and dom.op == 'loopdom' and any(y is outer[0] for y in walk(dom.args[1]))
-  ctx.ob('C13.P3', fu.short, 'unbatch re-emits row-major (outer pieces, then inner pieces)', ok,
-         f'unbatch must split axis 0 into shape[0] pieces and each piece (axis 0 again) into shape[1] pieces, appending in that nested order; got `{show(r, maxdepth=6)[:240]}`',
-         ctx.loc(fu), sample='for outer in split(b1): for inner in split(b2): append')
-  # single-piece branch (b2 == 1)
-  ev = evaluator(m, decide=Decider(extra=lambda c: False if (c.op == 'cmp' and c.args[0] == '>' and is_const(c.args[2], 1)) else None))
-  r = ev.run(fu)
-  ok1 = r.op == 'list' and len(r.args) == 1 and r.args[0].op == 'star' and len({y for y in walk(r) if is_ext_call(y, 'jax.numpy.split')}) == 1
-  ctx.ob('C13.P3', fu.short, 'b2 == 1: one result per outer piece', ok1, 'with one statistic per device each outer piece is one result', ctx.loc(fu),
-         sample='append(squeeze(outer piece))')
+      outer_ok = lambda t: split_of(t, lambda x: x is BV, 'bv.shape[0]')
+      piece = lambda t: (lambda q: q is not None and q.op == 'elem' and outer_ok(q.args[0]))(squeezed(t))     # squeeze(elem(outer split), 0)
+      if b2_many:
+        ok = len(doms) == 2 and outer_ok(doms[0]) and split_of(doms[1], piece, 'bv.shape[1]')
+        inner = squeezed(e)
+        ok = ok and inner is not None and inner.op == 'elem' and inner.args[0] is doms[1]
+      else:
+        ok = len(doms) == 1 and outer_ok(doms[0])
+        inner = squeezed(e)
+        ok = ok and inner is not None and piece(inner)
+    if b2_many:
+      ctx.ob('C13.P3', fu.short, 'unbatch re-emits row-major (outer pieces, then inner pieces)', ok,
+             f'unbatch must split axis 0 into shape[0] pieces and each piece (axis 0 again) into shape[1] pieces, appending in that nested order; got `{show(r, maxdepth=6)[:240]}`',
+             ctx.loc(fu), sample='for outer in split(b1): for inner in split(b2): append')
+    else:
+      ctx.ob('C13.P3', fu.short, 'b2 == 1: one result per outer piece', ok, f'with one statistic per device each outer piece is one result; got `{show(r, maxdepth=6)[:240]}`', ctx.loc(fu),
+             sample='append(squeeze(outer piece))')
+
+
+def _nest(r):
+  """(element term, [iterables, outermost first]) of a list built by nested loops / comprehensions; (None, []) otherwise.
+  Iterating over a mapped list `[g(x) for x in X]` is iterating over X (the element term already refers to X's element)."""
+  if r.op == 'star':
+    st = r
+  elif r.op == 'list' and len(r.args) == 1 and r.args[0].op == 'star':
+    st = r.args[0]
+  else:
+    return None, []
+  e, dom = st.args
+  doms = []
+
+  def base(it):
+    while it.op == 'list' and len(it.args) == 1 and it.args[0].op == 'star' and it.args[0].args[1].op == 'compdom':
+      it = it.args[0].args[1].args[0]
+    return it
+  while dom is not None:
+    if dom.op == 'compdom':
+      doms.append(base(dom.args[0]))
+      dom = None
+    elif dom.op == 'loopdom':
+      doms.append(base(dom.args[1]))
+      dom = dom.args[3] if len(dom.args) > 3 else None
+      if dom is not None and dom.op not in ('loopdom', 'compdom'):
+        dom = None
+    else:
+      return None, []
+  if e.op == 'star' or (e.op == 'list' and len(e.args) == 1 and e.args[0].op == 'star'):
+    e2, d2 = _nest(e)
+    if e2 is None:
+      return None, []
+    return e2, doms + d2
+  return e, doms
+
+
+def pad_dtypes(ctx):
+  """P2d: every identity used to pad the per-statistic lists to a multiple of the device count is created with an explicit
+  dtype (that of the real entries): the pads are stacked with the real statistics / roots, and an identity of the DEFAULT
+  float type promotes the whole stack - real rows included - exactly when N is not a multiple of D (under
+  jax_enable_x64 the state and the updates become float64 for some device counts only)."""
+  m = ctx.model
+  n = 0
+  sites = [(q, fixed) for q, fixed, _, _ in D.MODES] + [('sharded_init_fn', {})]
+  for q, fixed in sites:
+    v = {'scheduled': False, 'steps1': False, 'reuse': True, 'metrics': True}
+    fi, ev, r = D.eval_mode(m, q, fixed, v, extra_opaque={'_skip_preconditioning', 'preconditioner_from_params', 'init_training_metrics', 'init_avg_grad'})
+    ctx.analysed(fi)
+    ctx.evaluations += 1
+    vals = list(dict.fromkeys(x for v_ in ev.last_scope.vars.values() for x in walk(v_)))
+    pads = []
+    for x in vals:
+      if x.op in ('list', 'tuple'):
+        for e in x.args:
+          if e.op == 'star' and _is_pad(e):
+            pads += [y for y in walk(e.args[0]) if is_ext_call(y, 'jax.numpy.eye')]
+    for y in dict.fromkeys(pads):
+      n += 1
+      kw = dict(y.args[2])
+      ctx.ob('C13.P2', fi.short, f'identity pad carries an explicit dtype [{q},axis={fixed.get("batch_axis_name")}]', 'dtype' in kw and not is_const(kw['dtype'], None),
+             f'`{show(y, maxdepth=3)[:120]}` pads a list that is stacked with the real entries but has the default float type: with jax_enable_x64 the '
+             f'stack is promoted whenever pads are present (N % D != 0)', ctx.loc(fi), sample='jnp.eye(max_size, dtype=<dtype of the real entries>)')
+  ctx.need('C13.P2', n, 4, 'identity pads')
 
 
 def vmapped_roots(ctx):
